@@ -109,50 +109,7 @@ def well_formed(tree):
     return True
 
 
-def alias_context_conflict(doc):
-    """True iff some anchored node is adopted (at its definition or through an alias, also inside other aliased subtrees) by parents that
-    hand down different inherited flags.  One node object can hold one set of inherited flags only, so what such a document
-    means is not defined - the original tree itself then depends on which parent adopted the node last."""
-    defs = {n['anchor']: n for _, n in tdoc.walk(doc) if n.get('anchor')}
-    seen = {}
-
-    def child_ctx(n, ctx):
-        d, nw, us, pr = ctx
-        if n.get('del') is not None:
-            d = n['del']
-        elif n['t'] == 'seq':
-            d = True
-        if n.get('new') is not None:
-            nw = n['new']
-        if n.get('unsafe'):
-            us = True
-        if n.get('prio') is not None:
-            pr = n['prio']
-        return (d, nw, us, pr)
-
-    def rec(n, ctx, depth=0):
-        if depth > 12:
-            return
-        if n['t'] == 'alias':
-            seen.setdefault(n['name'], set()).add(ctx)
-            if n['name'] in defs:
-                body = defs[n['name']]
-                inner(body, ctx, depth + 1)
-            return
-        if n.get('anchor'):
-            seen.setdefault(n['anchor'], set()).add(ctx)
-        inner(n, ctx, depth)
-
-    def inner(n, ctx, depth):
-        c = child_ctx(n, ctx)
-        if n['t'] == 'map':
-            for _, v in n['items']:
-                rec(v, c, depth + 1)
-        elif n['t'] == 'seq':
-            for v in n['items']:
-                rec(v, c, depth + 1)
-    rec(doc, (None, None, None, None))
-    return any(len(v) > 1 for v in seen.values())
+alias_context_conflict = tdoc.alias_context_conflict
 
 
 def sharing(tree):
